@@ -166,6 +166,11 @@ func runBin(bin string, env []string, timeout time.Duration, extra ...string) pr
 	cmd := exec.CommandContext(ctx, bin, args...)
 	cmd.Dir = filepath.Dir(bin)
 	cmd.Env = append(append(baseEnv(), env...), "VERIF_OUT="+out, "VERIF_DIR="+verifDir)
+	// the checks' scratch files live under the driver's own temporary directory, which is removed when the
+	// driver exits — also when a test process is killed before it could tidy up
+	if scratch := filepath.Join(out, "tmp"); os.MkdirAll(scratch, 0o755) == nil {
+		cmd.Env = append(cmd.Env, "TMPDIR="+scratch)
+	}
 	b, runErr := cmd.CombinedOutput()
 	pr := procResult{output: string(b)}
 	files, _ := filepath.Glob(filepath.Join(out, "result-*.json"))
